@@ -167,7 +167,14 @@ impl Wdb2Header {
 
                 // Calculate index array size to skip
                 let index_array_size = if max_index > 0 {
-                    let diff = (max_index - min_index + 1) as u64;
+                    // Computed in 64 bits: the two indices are arbitrary 32-bit values
+                    let diff = i64::from(max_index) - i64::from(min_index) + 1;
+                    if diff <= 0 {
+                        return Err(Error::InvalidHeader(format!(
+                            "WDB2 index range {min_index}..={max_index} is empty"
+                        )));
+                    }
+                    let diff = diff as u64;
                     // Index array: diff * 4 bytes (u32 per entry)
                     // String length array: diff * 2 bytes (u16 per entry)
                     diff * 4 + diff * 2
